@@ -256,10 +256,11 @@ process_ghash(IMB_MGR *state, IMB_JOB *job)
         /* copy initial tag value to the destination */
         memcpy(job->auth_tag_output, job->u.GHASH._init_tag, job->auth_tag_output_len_in_bytes);
 
-        /* compute new tag value */
-        IMB_GHASH(state, job->u.GHASH._key, job->src + job->hash_start_src_offset_in_bytes,
-                  job->msg_len_to_hash_in_bytes, job->auth_tag_output,
-                  job->auth_tag_output_len_in_bytes);
+        /* compute new tag value (an empty message leaves the initial tag unchanged) */
+        if (job->msg_len_to_hash_in_bytes != 0)
+                IMB_GHASH(state, job->u.GHASH._key, job->src + job->hash_start_src_offset_in_bytes,
+                          job->msg_len_to_hash_in_bytes, job->auth_tag_output,
+                          job->auth_tag_output_len_in_bytes);
 
         job->status |= IMB_STATUS_COMPLETED_AUTH;
         return job;
